@@ -218,6 +218,7 @@ def run(index, tier="quick", seed=0) -> Result:
         raise AnalysisError(f"only {nsrc} sourced repository entries (133 confirmed)")
     _documented_names(res, index, data)
     _loader(res, index)
+    _doi_loader(res, index)
     return res
 
 
@@ -398,6 +399,48 @@ def _loader(res, index):
     v3 = r3["result"]
     ok = ok and v3 is not None and v3.obj is not None and v3.obj.cls is cls
     _v(res, ok, "LOAD-1", "_from_json_file builds the family from json.load of the given file", where)
+
+
+def _doi_loader(res, index):
+    """LOAD-4: every tabulated family handed out (by the DOI factory and by the module-level families of common.py) is
+    built from the whole json.load of its file: the mapping that reaches TabulatedGSDShapeFamily(data=...) carries the
+    provenance of json.load and is not a filtered / rebuilt mapping (entries would silently disappear)."""
+    from ..interp import Interp
+    from ..values import vconst
+    mod = index.module("coxeter.families.doi_data_repositories")
+    fac = mod.functions.get("_doi_shape_collection_factory")
+    fam = index.module("coxeter.families.tabulated_shape_family").classes.get("TabulatedGSDShapeFamily")
+    if fac is None or fam is None:
+        raise AnalysisError("anchor vanished: _doi_shape_collection_factory / TabulatedGSDShapeFamily")
+    files = mod.constants.get("_DOI_TO_FILE")
+    dois = [ast.literal_eval(k) for k in files.keys] if isinstance(files, ast.Dict) else []
+    if not dois:
+        raise AnalysisError("anchor vanished: _DOI_TO_FILE")
+    for doi in dois:
+        it = Interp(index, config={"fold_branches": True})
+        r = it.run_entry(fac, None, args={fac.params[0]: vconst(doi)})
+        cons = [e for e in r["events"] if e.type == "construct" and e.cls is fam]
+        k = f"doi:{doi}"
+        if not cons:
+            raise AnalysisError(f"LOAD-4: the factory builds no tabulated family for {doi} in a recognised way")
+        bad = None
+        for e in cons:
+            a_ = (e.kwargs or {}).get("data") or (e.args[0] if e.args else None)
+            if a_ is None or ("ret", "json.load") not in a_.tags:
+                bad = (e, a_)
+        if bad is None:
+            res.ok("LOAD-4", k)
+            continue
+        e, a_ = bad
+        # positively wrong: the mapping is rebuilt by a comprehension with a condition / a filter
+        fnode = e.func.node if e.func is not None else fac.node
+        filtered = any((isinstance(n_, ast.DictComp) and any(g.ifs for g in n_.generators)) or
+                       (isinstance(n_, ast.Call) and getattr(n_.func, "id", "") == "filter") for n_ in ast.walk(fnode))
+        if filtered and a_ is not None and any(("ret", "json.load") in x.tags for x in [a_]) is False:
+            res.bad("LOAD-4", k + ":filtered", e.where(), f"the family for {doi} is built from a filtered copy of the file's mapping "
+                    f"(`{e.src()[:60]}`): entries that fail the condition silently disappear from names, iteration and get_shape")
+        else:
+            raise AnalysisError(f"LOAD-4: the mapping passed to TabulatedGSDShapeFamily for {doi} does not come from json.load in a recognised way")
 
 
 def _v(res, ok, rule, what, where):
